@@ -102,3 +102,5 @@ def run_subprocess(argv, cwd=None, env=None, hashseed="0", timeout=120):
         inner = frames[-1].split('"')[1].rsplit("/", 1)[-1] + ":" + frames[-1].rsplit(" in ", 1)[-1] if frames else None
         r.exc_sig = f"{last.split(':')[0].split('.')[-1]}@{inner}"
     return r
+
+logging.disable(logging.CRITICAL)   # TLExport's log output is irrelevant to the oracles and only costs time
